@@ -422,6 +422,32 @@ fn exec_c<C: Suite>(scen: &Scenario) -> Exec {
                 rep.probe("plain_twin_compared");
             }
         }
+        // (d''') the older explicit-randomiser entry point binds the commitment SET and the message as two things: session S with message
+        // m, and session S' = S without its highest signer whose message starts with exactly the bytes that signer contributed to the
+        // commitment list (identifier, hiding, binding) followed by m, must not get the same randomiser from the same randomness
+        if ids.len() >= 2 {
+            let last = *ids.iter().max().unwrap();
+            let c_last = cm[&last];
+            let mut cm2 = cm.clone();
+            cm2.remove(&last);
+            let mut m2 = last.serialize();
+            m2.extend_from_slice(&c_last.hiding().serialize().unwrap_or_default());
+            m2.extend_from_slice(&c_last.binding().serialize().unwrap_or_default());
+            m2.extend_from_slice(&msg);
+            let pkg2 = SigningPackage::<C>::new(cm2, &m2);
+            let mk = |pk_: &SigningPackage<C>| {
+                let rng = SimRng::good(stream(scen.seed, scen.run, &format!("c17/boundary/{inst}")));
+                #[allow(deprecated)]
+                RandomizedParams::<C>::new(&vk, pk_, rng).map(|p| p.randomizer().serialize())
+            };
+            rep.evaluations += 1;
+            if let (Ok(a), Ok(b)) = (mk(&pkg), mk(&pkg2)) {
+                if a == b {
+                    return Exec::Violation(viol("C17.randomizer_ignores_commitments", format!("session {inst}: the explicit-randomiser entry point gives the same randomiser for {} signers with message m and for {} signers with message (last signer's list entry || m) under the same randomness: the boundary between commitment list and message is not bound", ids.len(), ids.len() - 1)), rep);
+                }
+                rep.probe("list_message_boundary_bound");
+            }
+        }
         // (e0) "for EVERY randomizer seed": seeds the library's own generator never makes - all zeroes, empty, one byte, 100 bytes,
         // all 0xff - chosen by the coordinator and handed to the participants: both sides derive the same parameters, signing and
         // aggregation succeed, the signature verifies under the randomised key
